@@ -131,6 +131,9 @@ def gen_plan(seed, tier="quick", variant=None):
             faults.append({"t": round(max(0.1, t_m - 0.1 - rng.random() * 0.3), 6), "act": "add_partitions", "topic": rng.choice(names), "n": rng.randint(1, 2)})
         if rng.random() < 0.4:
             faults.append({"api": 3, "node": None, "nth": 0, "act": "error", "code": rng.choice([5, 3]), "count": rng.choice([1, 2, 4]), "from_t": round(t_m - 0.02, 6)})
+            if len(names) > 1 and rng.random() < 0.6:
+                # ... for one topic only (being created, leaderless): the other topics of the subscription are answered fine
+                faults[-1]["only_topics"] = [rng.choice(names)]
         else:
             # no broker (nor the bootstrap host) answers metadata requests for a while: the lookup times out everywhere and fails outright
             faults.append({"api": 3, "node": None, "nth": 0, "act": "silent", "count": rng.choice([nb + 1, 2 * (nb + 1), 4 * (nb + 1)]), "from_t": round(t_m - 0.02, 6)})
